@@ -1,16 +1,33 @@
-"""property id -> check function(tier) -> exit code"""
-import checks_pure
+"""property id -> check function(tier) -> exit code.
+Checks are discovered automatically: every function check_cNN in a module lib/checks_*.py serves property CNN."""
+import glob, importlib, os, re
 
-CHECKS = {
-    "C11": checks_pure.check_c11,
-    "C12": checks_pure.check_c12,
-}
+CHECKS = {}
+
+
+def _discover():
+    here = os.path.dirname(os.path.abspath(__file__))
+    for path in sorted(glob.glob(os.path.join(here, "checks_*.py"))):
+        name = os.path.basename(path)[:-3]
+        try:
+            mod = importlib.import_module(name)
+        except Exception as e:  # a broken component must not take the others down
+            import sys
+            print("registry: cannot import %s: %r" % (name, e), file=sys.stderr)
+            continue
+        for attr in dir(mod):
+            m = re.fullmatch(r"check_c(\d+)", attr)
+            if m:
+                CHECKS["C" + m.group(1)] = getattr(mod, attr)
+
+
+_discover()
 
 
 def replay(pid, path):
     import json
     with open(path) as f:
         obj = json.load(f)
-    print(json.dumps(obj, indent=1))
+    print(json.dumps(obj, indent=1)[:20000])
     print("re-run: bin/check %s   (replay files record the failing input; checks are deterministic for a given VERIF_SEED)" % pid)
     return 0
